@@ -73,7 +73,7 @@ func RunC08TB(r *sim.Run) {
 	nSteps := t.Range(20, 120)
 	for step := 0; step < nSteps && !r.Violated(); step++ {
 		r.Step = step
-		switch t.Pick([]int{12, 6, 1, 1}) {
+		switch t.Pick([]int{12, 6, 3, 1}) {
 		case 3: // the schema changes its type under the same name
 			tbIsTB = !tbIsTB
 			flips++
